@@ -121,7 +121,19 @@ class Graph:
         self.has_tmpl = r.random() < 0.6
         ntd = r.randrange(0, 4)
         for i in range(ntd):
-            self.typedefs.append(("TD%d" % i, r.choice(self.SCAL)))
+            x = r.random()
+            if x < 0.5:
+                self.typedefs.append(("TD%d" % i, r.choice(self.SCAL), ""))
+            elif x < 0.7:
+                # typedefs of arrays, of complex numbers and of other typedefs: facts must flow through the whole chain
+                self.typedefs.append(("TD%d" % i, r.choice(self.SCAL), "[%d]" % r.choice([2, 3, 40])))
+            elif x < 0.8:
+                self.typedefs.append(("TD%d" % i, r.choice(["double _Complex", "float _Complex"]), ""))
+            elif self.typedefs:
+                self.typedefs.append(("TD%d" % i, r.choice(self.typedefs)[0], r.choice(["", "[2]"])))
+            else:
+                self.typedefs.append(("TD%d" % i, "float", "[3]"))
+        self.rec_typedefs = {}      # typedef name -> record it names (usable once the record is complete)
         for i in range(self.n):
             s = {"name": "S%d" % i, "bases": [], "fields": [], "virtual": r.random() < 0.2, "dtor": r.random() < 0.15, "union": r.random() < 0.1, "needs": set()}
             earlier = [x["name"] for x in self.structs if not x["union"]]
@@ -134,8 +146,15 @@ class Graph:
             for f in range(r.randrange(0, 5)):
                 x = r.random()
                 if x < 0.30:
-                    ty = r.choice(self.SCAL + ["float", "double"] + [t[0] for t in self.typedefs])
+                    ty = r.choice(self.SCAL + ["float", "double"] + [t[0] for t in self.typedefs] * 2)
                     s["fields"].append((ty, "f%d" % f, ""))
+                elif x < 0.36 and self.structs:
+                    # an earlier record through a typedef of its tag
+                    o = r.choice(self.structs)["name"]
+                    td = "RT%d_%d" % (i, f)
+                    self.rec_typedefs[td] = o
+                    s["fields"].append((td, "f%d" % f, r.choice(["", "", "[2]"])))
+                    s["needs"].add(o)
                 elif x < 0.45 and self.structs:
                     o = r.choice(self.structs)["name"]
                     s["fields"].append(("%s *" % o if r.random() < 0.5 else "S%d *" % r.randrange(self.n), "f%d" % f, ""))
@@ -171,7 +190,8 @@ class Graph:
     def render(self, order):
         out = ["// generated by props/c07.py"]
         out += ["%s %s;" % ("union" if s["union"] else "struct", s["name"]) for s in self.structs]
-        out += ["typedef %s %s;" % (t[1], t[0]) for t in self.typedefs]
+        out += ["typedef %s %s%s;" % (t[1], t[0], t[2]) for t in self.typedefs]
+        out += ["typedef %s %s %s;" % ("union" if [s for s in self.structs if s["name"] == o][0]["union"] else "struct", o, td) for td, o in sorted(self.rec_typedefs.items())]
         for name in order:
             if name == "T0":
                 out.append("template<class T> struct T0 { T x; T *p; };")
